@@ -188,3 +188,13 @@ CASES += [
         (_ESO8, "        if (self.now > 0) and self.ham.has_rwa and (not self.is_in_rwa):\n            self.convert_to_RWA(self.ham)\n",
                 "        if (self.now > 0) and self.ham.has_rwa and (not self.is_in_rwa):\n            raise Exception(\"convert back to RWA before the next step\")\n", 1)]},
 ]
+
+_LF9 = "quantarhei/qm/liouvillespace/lindbladform.py"
+CASES += [
+    {"name": "the Lindblad form keeps the operators of the system-bath interaction themselves (asarray of an array of the same type; seeded change of round 9)",
+     "kind": "mutant", "rule": "C08-Q", "edits": [(_LF9, "            KK = sbi.KK.copy()\n", "            KK = numpy.asarray(sbi.KK, dtype=REAL)\n", 1)]},
+    {"name": "the Lindblad form keeps the operators as a slice of the interaction's array", "kind": "mutant", "rule": "C08-Q",
+     "edits": [(_LF9, "            KK = sbi.KK.copy()\n", "            KK = sbi.KK[:, :, :]\n", 1)]},
+    {"name": "the copy of the operators is made with numpy.array", "kind": "twin",
+     "edits": [(_LF9, "            KK = sbi.KK.copy()\n", "            KK = numpy.array(sbi.KK, dtype=REAL)\n", 1)]},
+]
